@@ -100,7 +100,7 @@ Section ListCases.
     - inversion C1; inversion C2; subst. apply IH2; assumption.
   Qed.
 
-  (* `[T...]` against `[T1, .., Tn]` in either order: every `f t2 x` holds *)
+  (* expected `[T...]`, supplied `[T1, .., Tn]`: every `f t2 x` holds *)
   Lemma open_mixed : forall t2 t1, clean t2 = true -> clean (TMixed t1) = true ->
     all1 (fun x => f t2 x) t1 = Some true -> skel (TMixed t1) = L (skel t2).
   Proof.
@@ -109,6 +109,17 @@ Section ListCases.
     - destruct t1; [congruence | discriminate].
     - apply Forall_forall. intros s Hs. apply in_map_iff in Hs. destruct Hs as [x [<- Hx]].
       rewrite Forall_forall in H, C1. symmetry. apply IH; auto.
+  Qed.
+
+  (* expected `[T1, .., Tn]`, supplied `[T...]`: every `f x t2` holds (each slot expects an element) *)
+  Lemma mixed_open : forall t2 t1, clean t2 = true -> clean (TMixed t1) = true ->
+    all1 (fun x => f x t2) t1 = Some true -> skel (TMixed t1) = L (skel t2).
+  Proof.
+    intros t2 t1 C2 C1 H. apply all1_true in H. apply clean_mixed in C1. destruct C1 as [Hne C1].
+    cbn. apply collapse_const.
+    - destruct t1; [congruence | discriminate].
+    - apply Forall_forall. intros s Hs. apply in_map_iff in Hs. destruct Hs as [x [<- Hx]].
+      rewrite Forall_forall in H, C1. apply IH; auto.
   Qed.
 End ListCases.
 
@@ -156,7 +167,7 @@ Proof.
       * (* Open a / Mixed t2 *)
         symmetry. apply (open_mixed (cmp true n (Some f))); auto. intros; apply (IH (Some f)); auto.
       * (* Mixed t1 / Open b *)
-        apply (open_mixed (cmp true n (Some f))); auto. intros; apply (IH (Some f)); auto.
+        apply (mixed_open (cmp true n (Some f))); auto. intros; apply (IH (Some f)); auto.
       * (* Mixed / Mixed *)
         apply (mixed_mixed (cmp true n (Some f))); auto. intros; apply (IH (Some f)); auto.
   - (* == *)
@@ -168,7 +179,7 @@ Proof.
     + (* Open a / Mixed t2 *)
       symmetry. apply (open_mixed (cmp true n (Some classless))); auto. intros; apply (IH (Some classless)); auto.
     + (* Mixed t1 / Open b *)
-      apply (open_mixed (cmp true n (Some classless))); auto. intros; apply (IH (Some classless)); auto.
+      apply (mixed_open (cmp true n (Some classless))); auto. intros; apply (IH (Some classless)); auto.
     + (* Mixed / Mixed *)
       apply (mixed_mixed (cmp true n (Some classless))); auto. intros; apply (IH (Some classless)); auto.
     + (* map *)
@@ -257,11 +268,13 @@ Lemma empty_fixed_list_launders :
 Proof. repeat split; try reflexivity. cbn. discriminate. Qed.
 
 (* non-vacuity: T? accepts T; a fixed list is accepted as an open list; element-wise optional lists;
-   an optional is accepted as its base type where the return flags are used; unrelated kinds are refused *)
+   an optional is NOT accepted as its base type at any call site (only under lhs_unwrap, which no call site sets); unrelated kinds are refused *)
 Example compat_examples :
   eq_complex 20 fl_assign (TOpt t_int) t_int = Some true /\
   eq_complex 20 fl_assign t_int (TOpt t_int) = Some false /\
-  eq_complex 20 fl_return t_int (TOpt t_int) = Some true /\
+  eq_complex 20 fl_return t_int (TOpt t_int) = Some false /\
+  eq_complex 20 fl_reassign t_int (TOpt t_int) = Some false /\
+  eq_complex 20 fl_unwrapping t_int (TOpt t_int) = Some true /\
   eq_complex 20 fl_assign (TOpen t_int) (TMixed [t_int; t_int]) = Some true /\
   eq_complex 20 fl_assign (TOpen (TOpt t_int)) (TMixed [t_int; TNil]) = Some true /\
   eq_complex 20 fl_assign (TOpen t_int) (TMixed [t_int; t_str]) = Some false /\
